@@ -81,7 +81,7 @@ func main() {
 		"observed.pipe.result-externalised", "observed.http.result-externalised", "observed.pipe.external-input-resolved", "observed.http.external-input-resolved",
 		"observed.http.external-request-resolved", "observed.pipe.external-resolve-failed", "observed.http.external-resolve-failed",
 		"observed.http.cap-refusal.response", "observed.http.cap-refusal.external",
-		"observed.pipe.cast-accepted", "observed.http.cast-accepted", "observed.pipe.cast-refused", "observed.http.cast-refused", "observed.pipe.cast-refused-after-first-column-cast", "observed.http.cast-refused-after-first-column-cast",
+		"observed.pipe.cast-accepted", "observed.http.cast-accepted", "observed.pipe.cast-refused", "observed.http.cast-refused", "observed.pipe.cast-refused-after-first-column-cast", "observed.http.cast-refused-after-first-column-cast", "observed.pipe.cast-refused-misnamed-after-first-column-cast", "observed.http.cast-refused-misnamed-after-first-column-cast",
 		"observed.pipe.cancel-delivered", "observed.http.cancel-delivered", "observed.pipe.second-emit-refused-batch-returned", "observed.http.second-emit-refused-batch-returned",
 		"observed.pipe.write-fault-fired.unary", "observed.pipe.write-fault-fired.stream", "observed.http.write-fault-fired"}
 	for _, c := range allClasses {
